@@ -61,6 +61,7 @@ type Process struct {
 	logBuffer           *pclog.ProcessLogBuffer
 	logger              pclog.PcLogger
 	command             command.Commander
+	launched            bool // a command of this instance has been launched (guarded by stateMtx)
 	started             bool
 	done                bool
 	timeMutex           sync.Mutex
@@ -107,9 +108,10 @@ func NewProcess(opts ...ProcOpts) *Process {
 var errProcessStopped = errors.New("process was stopped")
 
 func (p *Process) run() int {
-	if p.isState(types.ProcessStateTerminating) {
-		// stopped while it was still pending
-		p.onProcessEnd(types.ProcessStateCompleted)
+	if p.procRunCtx.Err() != nil {
+		// this instance was stopped while it was still pending
+		p.compareAndSetState(types.ProcessStateCompleted, types.ProcessStatePending, types.ProcessStateTerminating)
+		p.finish("")
 		return 0
 	}
 
@@ -387,16 +389,18 @@ func (p *Process) internalStop() error {
 
 func (p *Process) stopProcess(cancelReadinessFuncs bool) error {
 	p.runCancelFn()
-	if !p.isRunning() {
+	// test and change in one step: the process may end, and record its final state, at any moment
+	if !p.compareAndSetState(types.ProcessStateTerminating,
+		types.ProcessStateRunning, types.ProcessStateLaunched, types.ProcessStateLaunching) {
 		log.Debug().Msgf("process %s is in state %s not shutting down", p.getName(), p.getStatusName())
 		// prevent pending process from running
-		if p.compareAndSetState(types.ProcessStatePending, types.ProcessStateTerminating) {
-			// release whoever waits for this process; its own goroutine records the final state
+		if p.stoppedBeforeLaunch() {
+			// release whoever waits for this instance; it will not launch anymore
+			p.compareAndSetState(types.ProcessStateTerminating, types.ProcessStatePending)
 			p.finish("")
 		}
 		return nil
 	}
-	p.setState(types.ProcessStateTerminating)
 	p.stopProbes()
 	if cancelReadinessFuncs {
 		if p.readyProber != nil {
@@ -709,16 +713,26 @@ func (p *Process) isOneOfStates(states ...string) bool {
 	return false
 }
 
-// compareAndSetState changes the status to 'to' only if it currently is 'from'
-func (p *Process) compareAndSetState(from, to string) bool {
+// stoppedBeforeLaunch reports whether this instance has not launched a command yet. It is
+// called after the run context was cancelled, so a false answer is final.
+func (p *Process) stoppedBeforeLaunch() bool {
 	p.stateMtx.Lock()
 	defer p.stateMtx.Unlock()
-	if p.procState.Status != from {
-		return false
+	return !p.launched
+}
+
+// compareAndSetState changes the status to 'to' only if it currently is one of 'from'
+func (p *Process) compareAndSetState(to string, from ...string) bool {
+	p.stateMtx.Lock()
+	defer p.stateMtx.Unlock()
+	for _, f := range from {
+		if p.procState.Status == f {
+			p.procState.Status = to
+			p.onStateChange(to)
+			return true
+		}
 	}
-	p.procState.Status = to
-	p.onStateChange(to)
-	return true
+	return false
 }
 
 func (p *Process) setState(state string) {
@@ -756,12 +770,14 @@ func (p *Process) getStatusName() string {
 func (p *Process) setStateAndRun(state string, runnable func() error) error {
 	p.stateMtx.Lock()
 	defer p.stateMtx.Unlock()
-	// A stop request cancels procRunCtx before it looks at the state. Checking both here,
-	// in the critical section that launches the command, closes the window in which a
-	// process that was just stopped (while pending or waiting to restart) got launched.
-	if p.procState.Status == types.ProcessStateTerminating || p.procRunCtx.Err() != nil {
+	// A stop request cancels procRunCtx before it looks at the state. Checking it here, in
+	// the critical section that launches the command, closes the window in which a process
+	// that was just stopped (while pending or waiting to restart) got launched. The context
+	// belongs to this instance; the status is shared with a later instance of the process.
+	if p.procRunCtx.Err() != nil {
 		return errProcessStopped
 	}
+	p.launched = true
 	p.procState.Status = state
 	p.onStateChange(state)
 	return runnable()
